@@ -20,6 +20,25 @@ def load_known():
         return []
 
 
+def replay_result(prop, r, path):
+    """Common end of a --replay of one case: known findings are named and do not count, anything else is a violation."""
+    known = set(k['key'] for k in load_known() if k.get('property') == prop and k.get('status') == 'known')
+    vs = r.get('violations') or []
+    for v in vs:
+        if v.get('key') in known:
+            print('KNOWN-FINDING: property=%s %s [%s]' % (prop, v.get('what', '')[:200], v.get('key')))
+    rest = [v for v in vs if v.get('key') not in known]
+    verdict = r.get('verdict')
+    if verdict == 'violated' and not rest:
+        verdict = 'held'
+    print(verdict, rest or r.get('why'))
+    common.cleanup_scratch()
+    if verdict == 'violated':
+        print('VIOLATION property=%s replay=%s' % (prop, path))
+        return 1
+    return 0
+
+
 class Collector:
     """Aggregates case results of one check run and writes evidence/<id>.json.
 
